@@ -359,3 +359,18 @@ package keeper
 //@   modifies wrk_store
 //@   ensures @only_the_parameter_key err == nil ==> wrk_store == wrkParamsPut(old(wrk_store), wrkParams(wrk_store))
 //@   ensures @rejected_changes_nothing err != nil ==> wrk_store == old(wrk_store)
+
+// the storage report: limit, usage, maximum and remaining purchasable capacity max(0, maximum - limit) (C08)
+//@ func Keeper.WrkChainStorage(c, req) (resp, err)
+//@   props C08 C20
+//@   pure
+//@   requires wrkParamsSet(wrk_store)
+//@   let id := req.WrkchainId
+//@   ensures @registered_only err == nil ==> wcHas(wrk_store, id)
+//@   ensures @figures err == nil && limHas(wrk_store, id) ==> resp.CurrentLimit == limGet(wrk_store, id) && resp.CurrentUsed == wcGet(wrk_store, id).NumBlocks && resp.Max == wrkParams(wrk_store).MaxStorageLimit && resp.MaxPurchasable == max(0, wrkParams(wrk_store).MaxStorageLimit - limGet(wrk_store, id))
+//@   ensures @identity err == nil ==> resp.WrkchainId == wcGet(wrk_store, id).WrkchainId && resp.Owner == wcGet(wrk_store, id).Owner
+
+//@ func Keeper.Params(c, req) (resp, err)
+//@   props C16 C20
+//@   pure
+//@   ensures err == nil && wrkParamsSet(wrk_store) ==> resp.Params == wrkParams(wrk_store)
